@@ -942,14 +942,18 @@ func wireChild(a wireArg) (*wireResult, error) {
 
 // wireCheck: model check, generate, replay in a child; crash = verdict.
 func wireCheck(run *core.Run) {
-	res, err := core.RunTLC(core.TLCOpts{Module: "WireSession", CfgText: fmt.Sprintf(wireCfg, 4, "FALSE", "INVARIANTS NodeAlive\nPROPERTIES Monotone"), Timeout: 5 * time.Minute})
+	maxMsgs := 4
+	if run.Thorough() {
+		maxMsgs = 5
+	}
+	res, err := core.RunTLC(core.TLCOpts{Module: "WireSession", CfgText: fmt.Sprintf(wireCfg, maxMsgs, "FALSE", "INVARIANTS NodeAlive\nPROPERTIES Monotone"), Timeout: 5 * time.Minute})
 	if err != nil || res.Violated != "" || res.Err != "" {
 		core.Fatal("WireSession: %v %s %s", err, res.Violated, res.Err)
 	}
 	run.States += res.Distinct
 	run.Transitions += res.Generated
 	var behaviours []wireBehaviour
-	_, err = core.RunTLC(core.TLCOpts{Module: "WireSession", CfgText: fmt.Sprintf(wireCfg, 4, "TRUE", "VIEW GenView\nACTION_CONSTRAINT EmitEdge"), Workers: 1, Timeout: 5 * time.Minute,
+	_, err = core.RunTLC(core.TLCOpts{Module: "WireSession", CfgText: fmt.Sprintf(wireCfg, maxMsgs, "TRUE", "VIEW GenView\nACTION_CONSTRAINT EmitEdge"), Workers: 1, Timeout: 5 * time.Minute,
 		OnLine: func(line string) {
 			if js, ok := core.ParseB(line, "B"); ok {
 				var b wireBehaviour
@@ -1013,7 +1017,7 @@ func wireCheck(run *core.Run) {
 			}
 		}
 	}
-	run.Set("wire_behaviours", fmt.Sprintf("%d behaviours (one per transition of WireSession.tla, <= 4 inputs) replayed over TCP/RLPx and UDP on the loopback interface against a real p2p.Server and discovery listener; after each one a well-behaved remote must still be served", len(behaviours)))
+	run.Set("wire_behaviours", fmt.Sprintf("%d behaviours (one per transition of WireSession.tla, <= 4 inputs, 5 in the thorough tier) replayed over TCP/RLPx and UDP on the loopback interface against a real p2p.Server and discovery listener; after each one a well-behaved remote must still be served", len(behaviours)))
 	run.Set("wire_reactions_observed", replies)
 	run.Set("wire_largest_allocation_around_an_input_bytes", maxAlloc)
 	// the stated limit: 10 MiB per message (1 MiB of slack for whatever else the process does meanwhile)
